@@ -467,41 +467,230 @@ theorem portSys_not_early {P : Net L K} {a : L} : P.portSys a ≠ .ok .early := 
     simp only
     split <;> simp
 
+/-- unfolding of `portPre` past the early returns -/
+theorem portPre_unfold {N : Net L K} {n1 n2 : L} (h12 : n1 ≠ n2)
+    (hany : ¬ (N.branchesBetween n1 n2).any (·.e.isIdealVS) = true) :
+    N.portPre n1 n2 =
+      match N.isolated (if n1 = N.zero then n2 else n1) (if n1 = N.zero then n1 else n2) with
+      | .error e => .error e
+      | .ok true => .ok .infinite
+      | .ok false =>
+        match N.isolated (if n1 = N.zero then n1 else n2) (if n1 = N.zero then n2 else n1) with
+        | .error e => .error e
+        | .ok true => .ok .infinite
+        | .ok false =>
+          match N.switchGround (if n1 = N.zero then n1 else n2) with
+          | .error e => .error e
+          | .ok N' => N'.portSys (if n1 = N.zero then n2 else n1) := by
+  unfold Net.portPre
+  simp only [h12, if_false, hany, Bool.false_eq_true]
+  rfl
+
+theorem switchGround_ok {N N' : Net L K} {g : L} (h : N.switchGround g = .ok N') :
+    N' = { N with zero := g } ∧ N'.check = .ok () := by
+  unfold Net.switchGround at h
+  cases hc : ({ N with zero := g } : Net L K).check with
+  | error e => simp [hc, bind, Except.bind] at h
+  | ok u =>
+    simp only [hc, bind, Except.bind, pure, Except.pure] at h
+    cases h
+    exact ⟨rfl, hc⟩
+
+/-- what `portPre` has established when it hands a system to `solve` -/
 theorem portPre_sys {N : Net L K} {n1 n2 : L} {N' : Net L K} {keep : List Bool} {A : List (List K)}
     {e : List K} {i1 : Nat} (h : N.portPre n1 n2 = .ok (.sys N' keep A e i1)) :
     n1 ≠ n2 ∧ N' = { N with zero := if n1 = N.zero then n1 else n2 } ∧ N'.check = .ok () ∧
       N'.portSys (if n1 = N.zero then n2 else n1) = .ok (.sys N' keep A e i1) := by
-  unfold Net.portPre at h
-  by_cases h12 : n1 = n2
-  · simp [h12] at h
-  · simp only [h12, if_false] at h
-    by_cases hany : (N.branchesBetween n1 n2).any (·.e.isIdealVS) = true
-    · simp [hany] at h
-    · simp only [hany, Bool.false_eq_true, if_false] at h
-      unfold Net.switchGround at h
-      cases hc : ({ N with zero := if n1 = N.zero then n1 else n2 } : Net L K).check with
-      | error e => simp [hc, bind, Except.bind] at h
-      | ok u =>
-        simp only [hc, bind, Except.bind, pure, Except.pure] at h
-        have := (portSys_sys h).1
-        subst this
-        exact ⟨h12, rfl, hc, h⟩
+  have h12 : n1 ≠ n2 := by
+    intro e12; unfold Net.portPre at h; simp [e12] at h
+  have hany : ¬ (N.branchesBetween n1 n2).any (·.e.isIdealVS) = true := by
+    intro ha; unfold Net.portPre at h; simp [h12, ha] at h
+  rw [portPre_unfold h12 hany] at h
+  cases h1 : N.isolated (if n1 = N.zero then n2 else n1) (if n1 = N.zero then n1 else n2) with
+  | error e => rw [h1] at h; cases h
+  | ok b1 =>
+    rw [h1] at h
+    cases b1 with
+    | true => cases h
+    | false =>
+      simp only at h
+      cases h2 : N.isolated (if n1 = N.zero then n1 else n2) (if n1 = N.zero then n2 else n1) with
+      | error e => rw [h2] at h; cases h
+      | ok b2 =>
+        rw [h2] at h
+        cases b2 with
+        | true => cases h
+        | false =>
+          simp only at h
+          cases h3 : N.switchGround (if n1 = N.zero then n1 else n2) with
+          | error e => rw [h3] at h; cases h
+          | ok N'' =>
+            rw [h3] at h
+            simp only at h
+            obtain ⟨hN, hc⟩ := switchGround_ok h3
+            have := (portSys_sys h).1
+            subst this
+            exact ⟨h12, hN, hc, h⟩
 
 theorem portPre_early {N : Net L K} {n1 n2 : L} (h : N.portPre n1 n2 = .ok .early) :
     N.portIsEarly n1 n2 = true := by
-  unfold Net.portPre at h
   unfold Net.portIsEarly
   by_cases h12 : n1 = n2
   · simp [h12]
-  · simp only [h12, if_false] at h
-    by_cases hany : (N.branchesBetween n1 n2).any (·.e.isIdealVS) = true
+  · by_cases hany : (N.branchesBetween n1 n2).any (·.e.isIdealVS) = true
     · simp [hany]
-    · simp only [hany, Bool.false_eq_true, if_false] at h
-      unfold Net.switchGround at h
-      cases hc : ({ N with zero := if n1 = N.zero then n1 else n2 } : Net L K).check with
-      | error e => simp [hc, bind, Except.bind] at h
-      | ok u =>
-        simp only [hc, bind, Except.bind, pure, Except.pure] at h
-        exact absurd h portSys_not_early
+    · exfalso
+      rw [portPre_unfold h12 hany] at h
+      cases h1 : N.isolated (if n1 = N.zero then n2 else n1) (if n1 = N.zero then n1 else n2) with
+      | error e => rw [h1] at h; cases h
+      | ok b1 =>
+        rw [h1] at h
+        cases b1 with
+        | true => cases h
+        | false =>
+          simp only at h
+          cases h2 : N.isolated (if n1 = N.zero then n1 else n2) (if n1 = N.zero then n2 else n1) with
+          | error e => rw [h2] at h; cases h
+          | ok b2 =>
+            rw [h2] at h
+            cases b2 with
+            | true => cases h
+            | false =>
+              simp only at h
+              cases h3 : N.switchGround (if n1 = N.zero then n1 else n2) with
+              | error e => rw [h3] at h; cases h
+              | ok N'' => rw [h3] at h; exact portSys_not_early h
+
+/-- `portPre` answers `infinite` exactly when one port node's column is zero in the MNA matrix
+referenced to the other port node -/
+theorem portPre_infinite {N : Net L K} {n1 n2 : L} (h : N.portPre n1 n2 = .ok .infinite) :
+    n1 ≠ n2 ∧ ∃ a g : L, ((a = n1 ∧ g = n2) ∨ (a = n2 ∧ g = n1)) ∧ N.isolated a g = .ok true := by
+  have h12 : n1 ≠ n2 := by
+    intro e12; unfold Net.portPre at h; simp [e12] at h
+  have hany : ¬ (N.branchesBetween n1 n2).any (·.e.isIdealVS) = true := by
+    intro ha; unfold Net.portPre at h; simp [h12, ha] at h
+  refine ⟨h12, ?_⟩
+  rw [portPre_unfold h12 hany] at h
+  cases h1 : N.isolated (if n1 = N.zero then n2 else n1) (if n1 = N.zero then n1 else n2) with
+  | error e => rw [h1] at h; cases h
+  | ok b1 =>
+    cases b1 with
+    | true =>
+      by_cases hz : n1 = N.zero
+      · simp only [hz, if_true] at h1; exact ⟨n2, n1, Or.inr ⟨rfl, rfl⟩, by rw [hz]; exact h1⟩
+      · simp only [hz, if_false] at h1; exact ⟨n1, n2, Or.inl ⟨rfl, rfl⟩, h1⟩
+    | false =>
+      rw [h1] at h
+      simp only at h
+      cases h2 : N.isolated (if n1 = N.zero then n1 else n2) (if n1 = N.zero then n2 else n1) with
+      | error e => rw [h2] at h; cases h
+      | ok b2 =>
+        cases b2 with
+        | true =>
+          by_cases hz : n1 = N.zero
+          · simp only [hz, if_true] at h2; exact ⟨n1, n2, Or.inl ⟨rfl, rfl⟩, by rw [hz]; exact h2⟩
+          · simp only [hz, if_false] at h2; exact ⟨n2, n1, Or.inr ⟨rfl, rfl⟩, h2⟩
+        | false =>
+          rw [h2] at h
+          simp only at h
+          cases h3 : N.switchGround (if n1 = N.zero then n1 else n2) with
+          | error e => rw [h3] at h; cases h
+          | ok N'' =>
+            rw [h3] at h
+            simp only at h
+            unfold Net.portSys at h
+            cases hi : idxOf? (if n1 = N.zero then n2 else n1) N''.nodes with
+            | none => simp [hi] at h
+            | some i => simp only [hi] at h; split at h <;> cases h
+
+
+theorem Yentry_symm (N : Net L K) (i j : L) : N.Yentry i j = N.Yentry j i := by
+  unfold Net.Yentry
+  by_cases h : i = j
+  · subst h; rfl
+  · have h' : ¬ j = i := fun e => h e.symm
+    simp only [h, h', if_false]
+    congr 3
+    apply List.filter_congr
+    intro b _
+    simp only [decide_eq_decide]
+    constructor <;> (rintro (h1 | h1) <;> [exact Or.inr h1; exact Or.inl h1])
+
+/-- a zero column of the MNA matrix is a zero row: the node's own equation has no unknown in it -/
+theorem rowNode_zero_of_colZero (P : Net L K) (hids : P.ids.Nodup) (a : L) (i : Nat)
+    (hi : idxOf? a P.nodes = some i) (hc : colZero P.mnaA i = true) (s : Sol L K) :
+    P.rowNode s a = 0 := by
+  have ha : a ∈ P.nodes := by
+    by_contra hna; rw [idxOf?_none_of_not_mem hna] at hi; cases hi
+  obtain ⟨k, hk, hlt, hget⟩ := idxOf?_of_mem ha
+  have hik : k = i := by rw [hk] at hi; exact Option.some.inj hi
+  subst hik
+  have hall := List.all_eq_true.mp hc
+  have hY : ∀ m ∈ P.nodes, P.Yentry m a = 0 := by
+    intro m hm
+    have hr : ((P.nodes.map fun j => P.Yentry m j) ++ (P.vsSorted.map fun b => b.dir m)) ∈ P.mnaA := by
+      unfold Net.mnaA; exact List.mem_append_left _ (List.mem_map.mpr ⟨m, hm, rfl⟩)
+    have := hall _ hr
+    simp only [decide_eq_true_eq] at this
+    rw [List.getD_eq_getElem?_getD, List.getElem?_append_left (by simpa using hlt), List.getElem?_map, hget] at this
+    simpa using this
+  have hB : ∀ b ∈ P.vsSorted, b.dir a = 0 := by
+    intro b hb
+    have hr : ((P.nodes.map fun j => b.dir j) ++ (P.vsSorted.map fun _ => (0 : K))) ∈ P.mnaA := by
+      unfold Net.mnaA; exact List.mem_append_right _ (List.mem_map.mpr ⟨b, hb, rfl⟩)
+    have := hall _ hr
+    simp only [decide_eq_true_eq] at this
+    rw [List.getD_eq_getElem?_getD, List.getElem?_append_left (by simpa using hlt), List.getElem?_map, hget] at this
+    simpa using this
+  unfold Net.rowNode
+  have h1 : (P.nodes.map fun m => P.Yentry a m * s.phi m).sum = 0 := by
+    apply List.sum_eq_zero
+    intro y hy
+    obtain ⟨m, hm, rfl⟩ := List.mem_map.mp hy
+    rw [Yentry_symm, hY m hm, zero_mul]
+  have h2 : (P.vsSorted.map fun b => b.dir a * s.ivs b.id).sum = 0 := by
+    apply List.sum_eq_zero
+    intro y hy
+    obtain ⟨b, hb, rfl⟩ := List.mem_map.mp hy
+    rw [hB b hb, zero_mul]
+  rw [h1, h2, add_zero]
+
+/-- an isolated port node: the unit-current problem on the network referenced to the other port node
+has no solution -/
+theorem isolated_no_solution (N : Net L K) (pid : String) (hp : pid ∉ N.ids) (hids : N.ids.Nodup)
+    (hsl : ∀ b ∈ N.branches, b.n1 ≠ b.n2) (a g : L) (hag : a ≠ g) (h : N.isolated a g = .ok true)
+    (R : Report L K) : ¬ CircuitEqs (probeNet { N with zero := g } pid a g 1) R := by
+  intro hR
+  unfold Net.isolated at h
+  cases hsw : N.switchGround g with
+  | error e => rw [hsw] at h; cases h
+  | ok Ng =>
+    rw [hsw] at h
+    simp only at h
+    obtain ⟨hNg, hcheck⟩ := switchGround_ok hsw
+    cases hi : idxOf? a Ng.nodes with
+    | none => rw [hi] at h; cases h
+    | some i =>
+      rw [hi] at h
+      simp only [Except.ok.injEq] at h
+      have hids' : Ng.ids.Nodup := by rw [hNg]; exact hids
+      have hp' : pid ∉ Ng.ids := by rw [hNg]; exact hp
+      have hsl' : ∀ b ∈ Ng.branches, b.n1 ≠ b.n2 := by rw [hNg]; exact hsl
+      have hzero : Ng.zero ∈ Ng.nodeLabels := ((Net.check_ok_iff Ng).mp hcheck).1
+      have hz : Ng.zero = g := by rw [hNg]
+      have ha : a ∈ Ng.nodes := by
+        by_contra hna; rw [idxOf?_none_of_not_mem hna] at hi; cases hi
+      obtain ⟨haL, haz⟩ := (mem_nodes_iff Ng a).mp ha
+      have hR' : CircuitEqs (probeM Ng pid a) R := by
+        show CircuitEqs (probeNet Ng pid a Ng.zero 1) R
+        rw [hz, hNg]; exact hR
+      have wf := probeM_wf Ng pid a hids' hp' haL hzero haz hsl'
+      have hmat := C01_complete (probeM Ng pid a) R wf hR'
+      obtain ⟨rows, _⟩ := (matVec_pack_iff (probeM Ng pid a) R.toSol).mp hmat
+      have haM : a ∈ (probeM Ng pid a).nodes := (probeM_nodes_perm Ng pid a haL hzero).mem_iff.mpr ha
+      have := rows a haM
+      rw [probeM_rowNode Ng pid a hids' hp' haL hzero, probeM_rhsNode Ng pid a hids' hp' haz,
+        rowNode_zero_of_colZero Ng hids' a i hi h] at this
+      simp at this
 
 end CC
